@@ -719,55 +719,59 @@ impl Router {
                 Packet::Unsubscribe(unsubscribe, _) => {
                     let connection = self.connections.get_mut(id).unwrap();
                     let pkid = unsubscribe.pkid;
+                    // exactly one UNSUBACK per UNSUBSCRIBE, with one reason per requested filter
+                    let mut reasons = Vec::with_capacity(unsubscribe.filters.len());
                     for filter in &unsubscribe.filters {
                         let span = tracing::info_span!("unsubscribe", topic = filter, pkid);
                         let _guard = span.enter();
 
                         debug!("Removing subscription on filter {}", filter);
-                        if let Some(connection_ids) = self.subscription_map.get_mut(filter) {
-                            let removed = connection_ids.remove(&id);
-                            if !removed {
-                                continue;
-                            }
-
-                            let meter = &mut self.ibufs.get_mut(id).unwrap().meter;
-                            meter.unregister_subscription(filter);
-
-                            if !connection.subscriptions.remove(filter) {
-                                warn!(
-                                    pkid = unsubscribe.pkid,
-                                    "Unsubscribe failed as filter was not subscribed previously"
-                                );
-                                continue;
-                            }
-
-                            // Remove connections from all groups
-                            // discard empty group ( group with no client )
-                            // note: can we do this in better way?
-                            self.shared_subscriptions.retain(|_, group| {
-                                group.remove_client(&client_id);
-                                !group.is_empty()
-                            });
-
-                            if let Some(broker_aliases) = connection.broker_topic_aliases.as_mut() {
-                                broker_aliases.remove_alias(filter);
-                            }
-
-                            // remove the subscription id
-                            connection.subscription_ids.remove(filter);
-
-                            let unsuback = UnsubAck {
-                                pkid,
-                                // reasons are used in MQTTv5
-                                reasons: vec![UnsubAckReason::Success],
-                            };
-                            let ackslog = self.ackslog.get_mut(id).unwrap();
-                            ackslog.unsuback(unsuback);
-                            self.scheduler.untrack(id, filter);
-                            self.datalog.remove_waiters_for_id(id, filter);
-                            force_ack = true;
+                        let removed = self
+                            .subscription_map
+                            .get_mut(filter)
+                            .is_some_and(|connection_ids| connection_ids.remove(&id));
+                        if !removed {
+                            reasons.push(UnsubAckReason::NoSubscriptionExisted);
+                            continue;
                         }
+
+                        let meter = &mut self.ibufs.get_mut(id).unwrap().meter;
+                        meter.unregister_subscription(filter);
+
+                        if !connection.subscriptions.remove(filter) {
+                            warn!(
+                                pkid = unsubscribe.pkid,
+                                "Unsubscribe failed as filter was not subscribed previously"
+                            );
+                            reasons.push(UnsubAckReason::NoSubscriptionExisted);
+                            continue;
+                        }
+
+                        // Remove connections from all groups
+                        // discard empty group ( group with no client )
+                        // note: can we do this in better way?
+                        self.shared_subscriptions.retain(|_, group| {
+                            group.remove_client(&client_id);
+                            !group.is_empty()
+                        });
+
+                        if let Some(broker_aliases) = connection.broker_topic_aliases.as_mut() {
+                            broker_aliases.remove_alias(filter);
+                        }
+
+                        // remove the subscription id
+                        connection.subscription_ids.remove(filter);
+
+                        reasons.push(UnsubAckReason::Success);
+                        self.scheduler.untrack(id, filter);
+                        self.datalog.remove_waiters_for_id(id, filter);
                     }
+
+                    // reasons are used in MQTTv5
+                    let unsuback = UnsubAck { pkid, reasons };
+                    let ackslog = self.ackslog.get_mut(id).unwrap();
+                    ackslog.unsuback(unsuback);
+                    force_ack = true;
                 }
                 Packet::PubAck(puback, _) => {
                     let span = tracing::info_span!("puback", pkid = puback.pkid);
